@@ -612,24 +612,46 @@ def wc_fst(counts, ns):
     return A / (A + BC)
 
 
+def _check_stats(fs, ks, n, tag):
+    S = sum(1 for k in ks if 0 < k < n)
+    pi = sum(k * (n - k) / (n * (n - 1) / 2.0) for k in ks)
+    thL = sum(k for k in ks if 0 < k < n) / (n - 1.0)
+    a1 = sum(1.0 / i for i in range(1, n))
+    with dadi_call('Spectrum statistics'):
+        gS, gpi, gW, gL = float(fs.S()), float(fs.pi()), float(fs.Watterson_theta()), float(fs.theta_L())
+    require(abs(gS - S) < 1e-9, 'S()%s = %r, %d segregating sites in the genotype matrix' % (tag, gS, S))
+    require(abs(gpi - pi) < 1e-9 * max(pi, 1), 'pi()%s = %r, mean pairwise differences from the genotype matrix = %r' % (tag, gpi, pi))
+    require(abs(gW - S / a1) < 1e-9 * max(S, 1), "Watterson_theta()%s = %r, expected %r" % (tag, gW, S / a1))
+    require(abs(gL - thL) < 1e-9 * max(thL, 1), 'theta_L()%s = %r, expected %r' % (tag, gL, thL))
+    if S >= 2:
+        eD = tajima_D(n, S, pi)
+        with dadi_call('Tajima_D'):
+            gD = float(fs.Tajima_D())
+        require(abs(gD - eD) < 1e-8 * max(abs(eD), 1), "Tajima_D()%s = %r, Tajima's formula from (n=%d, S=%d, pi=%r) gives %r" % (tag, gD, n, S, pi, eD))
+
+
 @st.composite
 def stat_case(draw):
     c = draw(geno_case(full=True, max_snps=40))
     c['aa_mode'] = 'all'
+    # frequency classes the user masks before asking for the statistics (seed C13h): every statistic must leave out exactly
+    # the SNPs of those classes, as S() = sum of the unmasked entries does
+    c['mask_classes'] = draw(st.lists(st.integers(0, 40), max_size=3)) if draw(st.booleans()) else []
     return c
 
 
 @REG.relation('R4-statistics', strategy=stat_case, quick=(400, 16), thorough=(6000, 16))
 def r4(case, rec):
     """S, pi, Watterson's theta, theta_L, Tajima's D (per population) and Fst (between populations) computed from the spectrum of
-    fully-called data equal the same statistics computed SNP by SNP from the genotype matrix."""
+    fully-called data equal the same statistics computed SNP by SNP from the genotype matrix; with frequency classes masked by the
+    user, every per-population statistic equals the one computed from the SNPs outside those classes (one SNP set for all of them)."""
     data = Data(case)
     vcf, pop = write_inputs(case, data, tag='t')
     with dadi_call('make_data_dict_vcf'):
         dd = Misc.make_data_dict_vcf(vcf, pop)
     os.unlink(vcf)
     os.unlink(pop)
-    rec.case(case, case['P'] >= 2, ['P=%d' % case['P']])
+    rec.case(case, case['P'] >= 2, ['P=%d' % case['P']] + (['masked frequency classes'] if case.get('mask_classes') else []))
     ns = [2 * n for n in case['ninds']]
     derived = []
     for s in data.snps:
@@ -641,21 +663,16 @@ def r4(case, rec):
             fs = dadi.Spectrum.from_data_dict(dd, [data.pops[p]], [ns[p]], mask_corners=True, polarized=True)
         n = ns[p]
         ks = [row[p] for row in derived]
-        S = sum(1 for k in ks if 0 < k < n)
-        pi = sum(k * (n - k) / (n * (n - 1) / 2.0) for k in ks)
-        thL = sum(k for k in ks if 0 < k < n) / (n - 1.0)
-        a1 = sum(1.0 / i for i in range(1, n))
-        with dadi_call('Spectrum statistics'):
-            gS, gpi, gW, gL = float(fs.S()), float(fs.pi()), float(fs.Watterson_theta()), float(fs.theta_L())
-        require(abs(gS - S) < 1e-9, 'S() = %r, %d segregating sites in the genotype matrix' % (gS, S))
-        require(abs(gpi - pi) < 1e-9 * max(pi, 1), 'pi() = %r, mean pairwise differences from the genotype matrix = %r' % (gpi, pi))
-        require(abs(gW - S / a1) < 1e-9 * max(S, 1), "Watterson_theta() = %r, expected %r" % (gW, S / a1))
-        require(abs(gL - thL) < 1e-9 * max(thL, 1), 'theta_L() = %r, expected %r' % (gL, thL))
-        if S >= 2:
-            eD = tajima_D(n, S, pi)
-            with dadi_call('Tajima_D'):
-                gD = float(fs.Tajima_D())
-            require(abs(gD - eD) < 1e-8 * max(abs(eD), 1), "Tajima_D() = %r, Tajima's formula from (n=%d, S=%d, pi=%r) gives %r" % (gD, n, S, pi, eD))
+        _check_stats(fs, ks, n, '')
+        cls = sorted(set(1 + k % (n - 1) for k in case.get('mask_classes') or [])) if n >= 3 else []
+        if len(cls) == n - 1:
+            cls = cls[:-1]          # a spectrum with every interior class masked has no statistics (its sum is `masked`)
+        if cls:
+            fsm = fs.copy()
+            fsm.mask[cls] = True
+            _check_stats(fsm, [k for k in ks if k not in cls], n, ' with frequency classes %s masked' % cls)
+            require(np.array_equal(np.ma.getdata(fsm), np.ma.getdata(fs)) and all(fsm.mask[cls]) and int(fsm.mask.sum()) == len(cls) + 2,
+                    'statistics modified the spectrum they were computed from')
     if case['P'] >= 2:
         with dadi_call('from_data_dict'):
             fs = dadi.Spectrum.from_data_dict(dd, data.pops, ns, mask_corners=True, polarized=True)
